@@ -33,6 +33,12 @@ def run(ctx: Ctx) -> None:
     rep.rule("C16.R7", "as C12.R2(ownership): the in-memory object cache of a store is built by that store and never handed to a store "
                        "over another (relative, re-resolved) internal directory")
     cache_ownership(ctx, "C16.R7")
+    rep.rule("C16.R8", "presence and path queries are answered from the shared directories at call time, never from state of one store object "
+                       "(stores sharing an internal directory see each other's blobs)")
+    n8 = S.presence_from_fs(ctx, v, "C16.R8")
+    rep.floor("C16.R8", n8, 3)
+    rep.rule("C16.R9", "no raise of the store is guarded by `realpath(..) ==/!= <abspath-based location>` (directories reached through symbolic links stay usable)")
+    S.no_resolved_vs_lexical_rejection(ctx, v, "C16.R9")
     rep.rule("C16.R6", "an existing path entry is kept only if its whole target equals the blob location under this store's internal directory")
     n6 = S.link_current_test(ctx, v, "C16.R6")
     rep.floor("C16.R6", n6, 0)
